@@ -7,9 +7,9 @@
 (* invocation and delegates:                                               *)
 (*  ["c", name]                                   a core rule ran          *)
 (*  ["b", name, silent, res, start, end, line0, line1, nt0, nt1, lv0, lv1, *)
-(*        tableSame, ctxSame, parentTypeSame]                              *)
+(*        tableSame, ctxSame, parentTypeSame, depth]   (in order of ENTRY)  *)
 (*  ["i", name, silent, res, pos0, pos1, pmax0, pmax1, nt0, nt1, pd0, pd1, *)
-(*        lv0, lv1]                                                        *)
+(*        lv0, lv1, depth]                      (in order of ENTRY)        *)
 (* Clauses:                                                                *)
 (*  core_order           the core rules that ran are exactly the enabled   *)
 (*                       ones, in registration order, once each            *)
@@ -24,13 +24,17 @@
 (*                       containers rewrite them in place and restore them *)
 (*  block_context_not_restored   ... and blkIndent, listIndent             *)
 (*  parent_type_not_restored     ... and parentType (except: see below)    *)
+(*  dispatch_order        per depth of nested rule calls, non-silent calls *)
+(*                       try the rules of the active chain in order from   *)
+(*                       the first one until one succeeds (see Consume)    *)
 (*  posmax_not_restored  an inline rule leaves posMax as it found it       *)
 (*                       (link text is parsed with posMax shrunk)          *)
 (***************************************************************************)
 EXTENDS Integers, Sequences, FiniteSets, TLC, Json, IOUtils
 
-VARIABLES tid, l, verdict, done, coreSeen
-tvars == <<tid, l, verdict, done, coreSeen>>
+VARIABLES tid, l, verdict, done, coreSeen,
+          bcur, icur    \* dispatch machines: per call depth, the index of the next rule of the chain to be tried
+tvars == <<tid, l, verdict, done, coreSeen, bcur, icur>>
 Data   == JsonDeserialize(IOEnv.TRACE_FILE)
 Traces == Data.traces
 Tr     == Traces[tid]
@@ -63,16 +67,38 @@ InlineVerdict(e) ==
     ELSE IF e[14] # e[13] THEN "level_not_restored"
     ELSE "ok"
 
+(* The dispatch machine of ParserBlock.tokenize / ParserInline.tokenize (events are in order of rule ENTRY and
+   carry the depth of nested rule calls): at one position the rules of the active chain are tried in registration
+   order from the first one, until one succeeds (block: the paragraph fallback always does; inline: when all
+   fail one character is taken as text and dispatch starts over).  Per depth the non-silent calls therefore spell
+   (chain[1..k-1] failing, chain[k] succeeding)* - nested dispatch loops of the same depth simply concatenate.
+   Silent calls (terminator consultations, skipToken) are not constrained here. *)
+CurOf(f, d) == IF d \in DOMAIN f THEN f[d] ELSE 1
+Put(f, d, v) == [x \in DOMAIN f \cup {d} |-> IF x = d THEN v ELSE f[x]]
+DispatchVerdict(chain, cur, name) ==
+    IF cur > Len(chain) \/ chain[cur] # name THEN "dispatch_order" ELSE "ok"
+Advance(chain, cur, res) == IF res \/ cur >= Len(chain) THEN 1 ELSE cur + 1
+
 Consume ==
-    LET e == Ev[l] IN
+    LET e == Ev[l]
+        silent == e[1] \in {"b", "i"} /\ e[3] = 1
+        d == IF e[1] = "b" THEN e[16] ELSE IF e[1] = "i" THEN e[15] ELSE 0
+        dv == IF e[1] = "b" /\ ~silent THEN DispatchVerdict(Tr.bchain, CurOf(bcur, d), e[2])
+              ELSE IF e[1] = "i" /\ ~silent THEN DispatchVerdict(Tr.ichain, CurOf(icur, d), e[2])
+              ELSE "ok"
+        rv == CASE e[1] = "c" -> "ok" [] e[1] = "b" -> BlockVerdict(e) [] e[1] = "i" -> InlineVerdict(e)
+    IN
     /\ l' = l + 1
-    /\ verdict' = CASE e[1] = "c" -> "ok" [] e[1] = "b" -> BlockVerdict(e) [] e[1] = "i" -> InlineVerdict(e)
+    /\ verdict' = IF rv # "ok" THEN rv ELSE dv
     /\ coreSeen' = IF e[1] = "c" THEN Append(coreSeen, e[2]) ELSE coreSeen
+    /\ bcur' = IF e[1] = "b" /\ ~silent THEN Put(bcur, d, Advance(Tr.bchain, CurOf(bcur, d), e[4] = 1)) ELSE bcur
+    /\ icur' = IF e[1] = "i" /\ ~silent THEN Put(icur, d, Advance(Tr.ichain, CurOf(icur, d), e[4] = 1)) ELSE icur
     /\ UNCHANGED <<tid, done>>
 
 Finish == /\ PrintT(<<"V", tid, IF verdict = "ok" /\ l > Len(Ev) /\ coreSeen # Tr.core THEN "core_order" ELSE verdict, l>>)
-          /\ done' = TRUE /\ UNCHANGED <<tid, l, verdict, coreSeen>>
-TraceInit == tid \in 1..Len(Traces) /\ l = 1 /\ verdict = "ok" /\ done = FALSE /\ coreSeen = <<>>
+          /\ done' = TRUE /\ UNCHANGED <<tid, l, verdict, coreSeen, bcur, icur>>
+TraceInit == /\ tid \in 1..Len(Traces) /\ l = 1 /\ verdict = "ok" /\ done = FALSE /\ coreSeen = <<>>
+             /\ bcur = <<>> /\ icur = <<>>
 TraceNext == /\ ~done
              /\ IF verdict # "ok" \/ l > Len(Ev) THEN Finish ELSE Consume
 TraceSpec == TraceInit /\ [][TraceNext]_tvars
